@@ -96,6 +96,24 @@ def junkSel : Junk → Option Nat
 
 def evLabels (o : RunObs) : List Lbl := o.events.map (·.2)
 
+/-- the event is the execution of a re-entry attempt -/
+def isReenterEv (sc : Scen) (e : Nat × Lbl) : Bool :=
+  match e.2 with
+  | .user l => (match actOf sc l with | some (.reenter _) => true | _ => false)
+  | .timeout => false
+
+/-- the event is the execution of "register a selectable": its label -/
+def selEv (sc : Scen) (e : Nat × Lbl) : Option Nat :=
+  match e.2 with
+  | .user l => (match actOf sc l with | some .addSel => some l | _ => none)
+  | .timeout => none
+
+/-- junk that is a delayed call of the scenario carries the label of one -/
+def junkKnown (sc : Scen) (j : Junk) : Bool :=
+  match j with
+  | .call (.user l) => (delayedLabels sc).contains l
+  | _ => true
+
 /-! ## clauses over one run: scenario, junk in the spinner before the call, observation -/
 
 def refused (jb : List Junk) : Bool := !jb.isEmpty
@@ -110,9 +128,7 @@ def cStale (sc : Scen) (jb : List Junk) (o : RunObs) : Bool :=
 /-- every re-entrant call was refused with ReentryError, one per attempt -/
 def cReentry (sc : Scen) (_ : List Junk) (o : RunObs) : Bool :=
   o.reentries.all (· == .reentry) && o.result != .reentry &&
-  o.reentries.length == (o.events.filter fun e => match e.2 with
-    | .user l => (match actOf sc l with | some (.reenter _) => true | _ => false)
-    | .timeout => false).length
+  o.reentries.length == (o.events.filter (isReenterEv sc)).length
 
 def cResult (sc : Scen) (jb : List Junk) (o : RunObs) : Bool :=
   refused jb || o.result == expected sc
@@ -140,12 +156,8 @@ def cJunk (sc : Scen) (jb : List Junk) (o : RunObs) : Bool :=
   refused jb ||
     ((delayedLabels sc).all (fun l => o.junk.count (.call (.user l)) + (evLabels o).count (.user l) == 1)
      && o.junk.count (.call .timeout) + (evLabels o).count .timeout + (if isOwnResult o.result then 1 else 0) == 1
-     && o.junk.all (fun j => match j with
-          | .call (.user l) => (delayedLabels sc).contains l
-          | _ => true)
-     && o.junk.filterMap junkSel == o.events.filterMap (fun e => match e.2 with
-          | .user l => (match actOf sc l with | some .addSel => some l | _ => none)
-          | .timeout => none))
+     && o.junk.all (junkKnown sc)
+     && o.junk.filterMap junkSel == o.events.filterMap (selEv sc))
 
 /-- the run never lasts beyond the timeout -/
 def cBounded (sc : Scen) (jb : List Junk) (o : RunObs) : Bool :=
